@@ -1,0 +1,7 @@
+//go:build !verif
+
+package redis
+
+// verifPoint marks a schedule point for the verification harness. Without the
+// build tag "verif" it does nothing.
+func verifPoint(string) {}
